@@ -235,8 +235,20 @@ func (env *zzSyncEnv) pendingHas(h *zh.Hdr) bool {
 }
 
 // checkStore: the C03 store invariants.
-func (env *zzSyncEnv) checkStore() {
-	zz.Assert(env.st.zzContiguous(), "the Store stays one gap-free run Tail..Head")
+func (env *zzSyncEnv) checkStore() { env.checkStoreAt(true) }
+
+// checkStoreAt: while the sync loop is in flight two appenders may hand adjacent batches to the Store in
+// either order, so only Tail..Head is required to be gap-free then; at quiescence everything stored must
+// form one run.
+func (env *zzSyncEnv) checkStoreAt(quiescent bool) {
+	if quiescent {
+		zz.Assert(env.st.zzContiguous(), "the Store stays one gap-free run Tail..Head")
+	} else if env.st.head != nil {
+		for h := env.st.tail.H; h <= env.st.head.H; h++ {
+			_, ok := env.st.hdrs[h]
+			zz.Assert(ok, "the Store stays one gap-free run Tail..Head")
+		}
+	}
 	for _, h := range env.st.hdrs {
 		zz.Assert(h.ID < zzForeign, "only headers of the verified chain are stored")
 		zz.Assert(h == env.chain[h.H-1], "a stored header is the verified header of its height")
@@ -299,7 +311,7 @@ func ZzC03() {
 		} else {
 			zz.Reach("accepted")
 		}
-		env.checkStore()
+		env.checkStoreAt(false)
 	}
 	zz.Quiesce()
 	env.checkStore()
